@@ -7,6 +7,7 @@ import (
 	"strings"
 
 	hast "github.com/aymerick/raymond/ast"
+	"golang.org/x/tools/go/cfg"
 	"golang.org/x/tools/go/ssa"
 )
 
@@ -445,6 +446,65 @@ func checkHandleAuthError(r *Report, en string, gp *goPartial) {
 	if !customOK {
 		viol = fmt.Sprintf("%s: no `if %s.CustomError != nil { reply(%s.CustomError.Payload); return }` arm", gp.site(fd.Pos()), errParam, errParam)
 	}
+	// net/http engines: the status must be written before any body byte (an earlier body
+	// write freezes the status at 200)
+	wName := ""
+	for _, prm := range fd.Type.Params.List {
+		if exprString(prm.Type) == "http.ResponseWriter" && len(prm.Names) == 1 {
+			wName = prm.Names[0].Name
+		}
+	}
+	if wName != "" {
+		g := cfg.New(fd.Body, func(*ast.CallExpr) bool { return true })
+		isBodyWrite := func(n ast.Node) bool {
+			return containsNode(n, func(m ast.Node) bool {
+				c, ok := m.(*ast.CallExpr)
+				if !ok {
+					return false
+				}
+				s := exprString(c.Fun)
+				if s == wName+".Write" || s == "io.WriteString" || s == "fmt.Fprint" || s == "fmt.Fprintf" || s == "fmt.Fprintln" {
+					return true
+				}
+				// json.NewEncoder(w).Encode(...)
+				if se, ok := c.Fun.(*ast.SelectorExpr); ok && se.Sel.Name == "Encode" {
+					if inner, ok := se.X.(*ast.CallExpr); ok && len(inner.Args) == 1 && exprString(inner.Args[0]) == wName {
+						return true
+					}
+				}
+				return false
+			})
+		}
+		isHeader := func(n ast.Node) bool {
+			return containsNode(n, func(m ast.Node) bool {
+				c, ok := m.(*ast.CallExpr)
+				return ok && exprString(c.Fun) == wName+".WriteHeader"
+			})
+		}
+		seen := map[*cfg.Block]bool{}
+		var walk func(b *cfg.Block)
+		walk = func(b *cfg.Block) {
+			if seen[b] || viol != "" {
+				return
+			}
+			seen[b] = true
+			for _, n := range b.Nodes {
+				if isHeader(n) {
+					return
+				}
+				if isBodyWrite(n) {
+					viol = fmt.Sprintf("%s: the response body is written before %s.WriteHeader(status): the refusal would be sent with status 200", gp.site(n.Pos()), wName)
+					return
+				}
+			}
+			for _, s := range b.Succs {
+				walk(s)
+			}
+		}
+		if len(g.Blocks) > 0 {
+			walk(g.Blocks[0])
+		}
+	}
 	r.add("C03.c", "tplgo", key, desc, []string{gp.Tpl.File + "#handleAuthorizationError"}, sites, viol)
 }
 
@@ -615,8 +675,13 @@ func checkInheritance(c *Ctx, r *Report) {
 		r.add("C03.d", "fieldflow", rred+":parent-arg", "the inherited list is the one ControllerMeta.Reduce passed down", []string{rred}, sites, viol)
 	}
 
-	// GetSecurityFromContext reads the @Security annotations
+	// GetSecurityFromContext reads the @Security annotations, and keeps every one of them
 	checkAnnotationConst(c, r, "C03.d", "core/metadata.GetSecurityFromContext", "GleeceAnnotationSecurity")
+	ruleEach(c, r, "C03.d", "core/metadata.GetSecurityFromContext",
+		func(fi *FuncInfo) func(ast.Expr) bool { return w.rangeOverType(fi, "[]*core/annotations.Attribute") }, "@Security attributes",
+		func(fi *FuncInfo) func(ast.Node) bool { return w.appendTo(fi, identNamed("securities")) }, "append(securities)",
+		nil, true,
+		"every @Security annotation (with or without scopes) becomes one alternative; the only other exit is an error")
 	// GetDefaultSecurity yields the configured component
 	if fi := need(c, r, "C03.d", "core/metadata.GetDefaultSecurity"); fi != nil {
 		viol := ""
